@@ -102,7 +102,34 @@ def independent_axes(w):
             internal.update(c05_internal_axes(fd))
     root_axes = {a for n, d in w["inputs"].items() if d["kind"] in ("list", "ndarray") and n in arrays for a in arrays[n] if a}
     nonempty = {a for a in root_axes if w["indices"].get(a, 0) > 0}  # an empty axis cannot be partitioned or fixed
-    return sorted((root_axes & nonempty) - reduced - internal), sorted(reduced & root_axes & nonempty)
+    return sorted((root_axes & nonempty) - reduced - internal), sorted(reduced & root_axes)
+
+
+def sub_workload(w, fn_names):
+    """The part of the workload needed to compute the outputs of the given functions."""
+    prod = {o: fd for fd in w["functions"] for o in fd["outputs"]}
+    need, stack = set(), list(fn_names)
+    while stack:
+        f = stack.pop()
+        if f in need:
+            continue
+        need.add(f)
+        fd = next(x for x in w["functions"] if x["name"] == f)
+        for p_ in fd["params"]:
+            if p_ in prod and p_ not in fd.get("bound", {}):
+                stack.append(prod[p_]["name"])
+    c = copy.deepcopy(w)
+    c["functions"] = [fd for fd in c["functions"] if fd["name"] in need]
+    C._prune_inputs(c)
+    return c
+
+
+def output_names_arg(w, fn_names):
+    out = set()
+    for fd in w["functions"]:
+        if fd["name"] in fn_names:
+            out.add(fd["outputs"][0] if len(fd["outputs"]) == 1 else tuple(fd["outputs"]))
+    return out
 
 
 def c05_internal_axes(fd):
@@ -153,6 +180,7 @@ def gen_case(tape, tier):
         return None
     ind, red = independent_axes(w)
     if fam == "reject":
+        red = [a for a in red if w["indices"][a] > 0]  # on an empty axis index 0 is also out of range (IndexError is right)
         kind = tape.pick(["unknown", "range"] + (["reduced"] if red else []), "reject-kind")
         if kind == "unknown":
             fixed = {"zz": 0}
@@ -164,6 +192,17 @@ def gen_case(tape, tier):
         return {"family": "reject", "workload": w, "fixed": fixed, "kind": kind,
                 "config": {"storage": tape.pick(list(C.STORAGES), "storage")}}
     if fam == "parts":
+        output_fns = None
+        if len(w["functions"]) > 1 and tape.coin(0.25, "output-names"):
+            # run only some outputs (output_names=): requests are then judged against the sub-pipeline that runs
+            fns = [tape.pick([fd["name"] for fd in w["functions"]], "out-fn")]
+            w_sub = sub_workload(w, fns)
+            ind_sub, _r = independent_axes(w_sub)
+            if ind_sub and len(w_sub["functions"]) < len(w["functions"]):
+                output_fns, ind = fns, ind_sub
+                for d in w["inputs"].values():  # with output_names every root argument must be passed explicitly
+                    if d["kind"] == "default":
+                        d["provided"] = True
         axes = [tape.pick(ind, "axis")]
         if len(ind) > 1 and tape.coin(0.4, "two-axes"):
             other = tape.pick([a for a in ind if a != axes[0]], "axis2")
@@ -179,8 +218,11 @@ def gen_case(tape, tier):
             executor = {"kind": "single", "ex": {"mode": tape.pick(["thread", "process"], "mode"),
                                                  "workers": 1 + tape.choose(3, "workers"), "start": tape.pick(["fifo", "any"], "start"),
                                                  "pickle_at": "submit"}}
-        return {"family": "parts", "workload": w, "parts": parts, "complete": len(parts) == _n_parts(per_axis),
+        case = {"family": "parts", "workload": w, "parts": parts, "complete": len(parts) == _n_parts(per_axis),
                 "config": {"storage": C.gen_storage(tape, w), "executor": executor, "preempt": tape.pick([0.1, 0.5], "preempt")}}
+        if output_fns:
+            case["output_fns"] = output_fns
+        return case
     # with split_independent_axes pipefunc chooses the axes itself; it is asked for only where no root axis is
     # reduced anywhere, so that a refusal cannot be a legitimate "reduced axis" rejection
     split = bool(tape.coin(0.5, "split")) and not red
@@ -286,6 +328,10 @@ def run_case(case, exec_seed=None, exec_tape=None):
         viol.append({"property": PID, "oracle": oracle, "kind": kind, "detail": detail,
                      "signature": dict({"family": fam, "unnamed_axis": has_unnamed_axis(w)}, **(sig or {}))})
 
+    w_full = w
+    if case.get("output_fns"):
+        w = sub_workload(w_full, case["output_fns"])  # oracles are about the sub-pipeline that actually runs
+        probes["output_names"] = 1
     ref = c05.reference(w)
     if ref.error is not None:
         out["discarded"] = True
@@ -335,7 +381,7 @@ def run_case(case, exec_seed=None, exec_tape=None):
                 V("reject", "user-code-ran-before-rejection", {"fixed": case["fixed"], "calls": len(sim.calls)})
             probes[f"reject:{case['kind']}"] = 1
         elif fam == "parts":
-            _run_parts(case, w, ref, folder, process, V, probes)
+            _run_parts(case, w, ref, folder, process, V, probes, w_full)
         else:
             _run_learners(case, w, ref, folder, process, V, probes, tape)
     probes[f"family:{fam}"] = 1
@@ -367,20 +413,25 @@ def _masks_expected(w, parts_done):
     return exp
 
 
-def _run_parts(case, w, ref, folder, process, V, probes):
+def _run_parts(case, w, ref, folder, process, V, probes, w_full=None):
     from pipefunc.map import load_outputs
     from pipefunc.map._storage_array._base import StorageBase
 
     cfg = case["config"]
+    w_full = w_full or w
+    extra = {"output_names": output_names_arg(w_full, case["output_fns"])} if case.get("output_fns") else {}
+    storage = C.storage_arg(cfg["storage"])
+    if extra and isinstance(storage, dict):
+        storage = next(iter(storage.values()))  # per-output storage dicts are keyed by outputs that may not run
     seen_calls = collections.Counter()
     done = []
     for pi, part in enumerate(case["parts"]):
         def go(sim, part=part):
-            p = build_pipeline(w)
+            p = build_pipeline(w_full)
             executor, parallel = C.make_executor(sim, cfg["executor"])
             res = p.map(build_inputs(w), run_folder=folder, parallel=parallel, executor=executor,
-                        storage=C.storage_arg(cfg["storage"]), fixed_indices=_fx(part), cleanup=False, persist_memory=True,
-                        **map_kwargs(w))
+                        storage=storage, fixed_indices=_fx(part), cleanup=False, persist_memory=True,
+                        **map_kwargs(w), **extra)
             masks = {}
             for o in all_outputs(w):
                 st = res[o].store
@@ -414,9 +465,9 @@ def _run_parts(case, w, ref, folder, process, V, probes):
                 return
     # final full run recomputes nothing (when the parts were a complete partition) and returns R0
     def final(sim):
-        p = build_pipeline(w)
-        res = p.map(build_inputs(w), run_folder=folder, parallel=False, storage=C.storage_arg(cfg["storage"]), cleanup=False,
-                    persist_memory=True, **map_kwargs(w))
+        p = build_pipeline(w_full)
+        res = p.map(build_inputs(w), run_folder=folder, parallel=False, storage=storage, cleanup=False,
+                    persist_memory=True, **map_kwargs(w), **extra)
         return {o: canon(res[o].output) for o in all_outputs(w)}
 
     R, err, sim = process(final)
